@@ -112,7 +112,7 @@ impl Workspace {
             .arg(jobs.to_string())
             .env("CARGO_TARGET_DIR", self.target_dir())
             .env("CARGO_NET_OFFLINE", "true")
-            .env("RUSTFLAGS", "--cfg bytecodealliance_wit_bindgen_verif")
+            .env("RUSTFLAGS", "--cfg bytecodealliance_wit_bindgen_verif -Awarnings")
             .env("CARGO_TERM_COLOR", "never");
         for m in only {
             cmd.arg("-p").arg(m);
